@@ -8,7 +8,7 @@ ENGINES = {
 AGREE_COMPONENTS = {
     "real": ["agreement.Service (demux, player, router, vote/proposal trackers, pseudonode, cryptoVerifier, AsyncVoteVerifier, persistence to a real SQLite crash DB)",
              "crypto (libsodium fork: ed25519, VRF, one-time signatures)", "data/committee credentials + sortition", "protocol codecs"],
-    "stub": ["ledger as seen by agreement (block map + static stake table)", "block factory/validator (deterministic per (node, round))",
+    "stub": ["ledger as seen by agreement (block map + static stake table)", "block factory/validator (a deterministic function of (node, round, number of assemblies of that round so far); validation always accepts)",
              "gossip network (simulated full mesh)", "timers.Clock (simulated per-node clock)", "execpool (single FIFO worker)"],
 }
 
@@ -34,9 +34,9 @@ PROPS = {
         "engine": "agreesim", "level": "exploration", "budget": {"quick": 60, "thorough": 1200},
         "rule": "one evaluation = one seeded run with crash/restart faults biased to the persist/send windows (seam-call crash triggers, slow ledger flush, quiescent crashes); "
                 "non-trivial = committed >=1 round AND >=1 crash; distinct = distinct event-log digest",
-        "components": AGREE_COMPONENTS, "assumptions": AGREE_ASSUME + ["block assembly is a pure function of (node, round); propose-step votes are excluded from the one-value rule because assemble/repropose are non-persistent by design"],
-        "technique": "deterministic simulation with crash injection at seam calls; history oracle over all incarnations + shadow-restore of the crash DB at send time",
-        "level_text": "Seeded search over crash placements (before persist, persisted-not-sent, partly sent) and schedules; history oracle: one value per (key, round, period, step>=soft) over all incarnations; shadow restore of the crash-DB image at every send instant must re-attest the same vote.",
+        "components": AGREE_COMPONENTS, "assumptions": AGREE_ASSUME + ["every assembly yields a different block, so re-proposals differ; propose-step votes are excluded from the one-value rule because assemble/repropose are non-persistent by design"],
+        "technique": "deterministic simulation with crash injection at seam calls; history oracle over all incarnations + persisted-before-sent decided from an in-DB persist history sampled at the network seam + shadow-restore of the crash DB image",
+        "level_text": "Seeded search over crash placements (before persist, persisted-not-sent, partly sent) and schedules; history oracle: one value per (key, round, period, step>=soft) over all incarnations; every own vote of step>=soft may leave only after a state holding exactly that attestation was persisted (append-only persist history inside the crash DB, sampled at the network seam); a node restored from the crash-DB image at a send instant never votes against anything its keys sent.",
         "level_note": "Trusted: SQLite atomic commit; simulator seams. Crash granularity is the storage transaction.",
         "design_ref": "DESIGN.md §4 C02",
     },
